@@ -287,3 +287,34 @@ def param_exprs(site: SqlSite) -> list[ast.AST] | None:
     if isinstance(p, (ast.Tuple, ast.List)):
         return list(p.elts)
     return None
+
+
+def schema_keys(sites_: list[SqlSite]) -> dict[str, list[tuple[str, ...]]]:
+    """table-expression -> key column groups (PRIMARY KEY / UNIQUE, column- or table-level, and CREATE UNIQUE INDEX)
+    that an INSERT can collide on.  An ``INTEGER PRIMARY KEY AUTOINCREMENT`` column is not a collision key for an
+    INSERT that does not list it."""
+    out: dict[str, list[tuple[str, ...]]] = {}
+    for s in sites_:
+        t = s.template
+        m = re.match(r"\s*CREATE\s+TABLE\s+(?:IF\s+NOT\s+EXISTS\s+)?(\{[^}]+\}|\w+)\s*\((.*)\)\s*;?\s*$", t, re.I | re.S)
+        if m:
+            name = m.group(1)[1:-1] if m.group(1).startswith("{") else m.group(1)
+            groups = out.setdefault(name, [])
+            for part in _split_top(m.group(2), ","):
+                p = " ".join(part.split())
+                mm = re.match(r"(PRIMARY\s+KEY|UNIQUE)\s*\(([^)]*)\)", p, re.I)
+                if mm:
+                    groups.append(tuple(c.strip() for c in mm.group(2).split(",")))
+                    continue
+                mm = re.match(r"([A-Za-z_]\w*)\s+.*?\b(PRIMARY\s+KEY|UNIQUE)\b", p, re.I)
+                if mm and not re.match(r"(FOREIGN|CHECK|CONSTRAINT)\b", p, re.I):
+                    if re.search(r"\bAUTOINCREMENT\b", p, re.I):
+                        groups.append(("<auto>" + mm.group(1),))
+                    else:
+                        groups.append((mm.group(1),))
+            continue
+        m = re.match(r"\s*CREATE\s+UNIQUE\s+INDEX\s+(?:IF\s+NOT\s+EXISTS\s+)?\S+\s+ON\s+(\{[^}]+\}|\w+)\s*\(([^)]*)\)", t, re.I | re.S)
+        if m:
+            name = m.group(1)[1:-1] if m.group(1).startswith("{") else m.group(1)
+            out.setdefault(name, []).append(tuple(c.strip() for c in m.group(2).split(",")))
+    return out
